@@ -3271,6 +3271,9 @@ func (data *Data) Unmarshal(pb *proto2.Data) {
 	for _, me := range pb.GetMigrateEvents() {
 		mei := &MigrateEventInfo{}
 		mei.unmarshal(me)
+		// unmarshal also decodes the CreateEvent command, where a new event starts with preState = currState;
+		// a snapshot must give back the previous state it recorded
+		mei.preState = int(me.GetPreState())
 		data.MigrateEvents[mei.eventId] = mei
 	}
 	// Exhaustively determine if there is an admin GetUser. The marshalled cache
